@@ -297,18 +297,19 @@ func buildOps(th bool) {
 		return func() { z.SetCanonicalBytes(b); z.SetBytes(b) }
 	}})
 
-	// point multiplication
-	ops = append(ops, op{"Point.ScalarMult(secret s, public P)", sc, func(sec *big.Int) func() {
+	// point multiplication: the scalar 0 is a legitimate secret here (e.g. a commitment to the amount 0), unlike for keys
+	sc0 := append([]mc.Val{{Label: "0", V: new(big.Int)}}, sc...)
+	ops = append(ops, op{"Point.ScalarMult(secret s, public P)", sc0, func(sec *big.Int) func() {
 		s, p, v := lib.MkSC(sec), lib.MkPT(pubP), new(secp256k1.Point)
 		return func() { v.ScalarMult(s, p) }
 	}})
-	ops = append(ops, op{"Point.ScalarBaseMult(secret s)", sc, func(sec *big.Int) func() {
+	ops = append(ops, op{"Point.ScalarBaseMult(secret s)", sc0, func(sec *big.Int) func() {
 		s, v := lib.MkSC(sec), new(secp256k1.Point)
 		return func() { v.ScalarBaseMult(s) }
 	}})
 	for _, l := range []int{1, 2, 3} {
 		l := l
-		ops = append(ops, op{fmt.Sprintf("Point.MultiScalarMult(%d secret scalars, public points)", l), sc, func(sec *big.Int) func() {
+		ops = append(ops, op{fmt.Sprintf("Point.MultiScalarMult(%d secret scalars, public points)", l), sc0, func(sec *big.Int) func() {
 			var ss []*secp256k1.Scalar
 			var ps []*secp256k1.Point
 			for i := 0; i < l; i++ {
